@@ -3,6 +3,8 @@ package main
 import (
 	"fmt"
 	"math"
+	"sort"
+	"sync"
 	"time"
 
 	tally "github.com/uber-go/tally/v4"
@@ -17,6 +19,9 @@ func runC19(c *mon.Ctx) {
 	c.Cases(func(i int, r *mon.Rand) {
 		c19Plain(c, r.Fork(1))
 		c19Cached(c, r.Fork(2))
+		if i%4 == 0 || c.Race {
+			c19Concurrent(c, r.Fork(3))
+		}
 	})
 }
 
@@ -279,3 +284,159 @@ func c19Cached(c *mon.Ctx, r *mon.Rand) {
 }
 
 func mathFloat64bits(f float64) uint64 { return math.Float64bits(f) }
+
+// c19Concurrent: several goroutines use one multi reporter at the same time
+// (report loop, synchronous timers, explicit Flush callers). Children are slow
+// in a PRNG-determined way so that calls overlap. Every child must have
+// received exactly the multiset of calls made on the multi reporter - Flush
+// calls included, each one forwarded.
+func c19Concurrent(c *mon.Ctx, r *mon.Rand) {
+	n := r.Range(1, 4)
+	cached := r.Bool()
+	recs := make([]*mon.Recorder, n)
+	plainKids := make([]tally.StatsReporter, n)
+	cachedKids := make([]tally.CachedStatsReporter, n)
+	dseed := r.U64()
+	for i := range recs {
+		var rec *mon.Recorder
+		if cached {
+			p := mon.NewCachedRec(true)
+			rec, cachedKids[i] = p.Recorder, p
+		} else {
+			p := mon.NewPlainRec(true)
+			rec, plainKids[i] = p.Recorder, p
+		}
+		i := i
+		var cnt uint64
+		var cmu sync.Mutex
+		rec.Delay = func(k mon.EvKind) {
+			cmu.Lock()
+			cnt++
+			z := mon.Hash64(fmt.Sprint(dseed, i, cnt))
+			cmu.Unlock()
+			if k == mon.EvFlush || z%4 == 0 {
+				time.Sleep(time.Duration(z%200) * time.Microsecond)
+			}
+		}
+		recs[i] = rec
+	}
+	G := r.Range(2, 6)
+	per := r.Range(5, 40)
+	desc := map[string]interface{}{"flavour": map[bool]string{true: "cached", false: "plain"}[cached], "children": n, "goroutines": G, "calls_per_goroutine": per}
+	c.Eval(1)
+	stop := c.Watchdog(300*time.Second, "no-progress", desc)
+	defer stop()
+	var wantMu sync.Mutex
+	var want []string
+	add := func(e mon.Event) {
+		wantMu.Lock()
+		want = append(want, evSig(e))
+		wantMu.Unlock()
+	}
+	var wg, start sync.WaitGroup
+	start.Add(1)
+	var panics sync.Map
+	var mp tally.StatsReporter
+	var mc tally.CachedStatsReporter
+	if cached {
+		mc = multi.NewMultiCachedReporter(cachedKids...)
+	} else {
+		mp = multi.NewMultiReporter(plainKids...)
+	}
+	for g := 0; g < G; g++ {
+		g := g
+		gr := r.Fork(uint64(50 + g))
+		wg.Add(1)
+		go func() {
+			defer wg.Done()
+			defer func() {
+				if p := recover(); p != nil {
+					panics.Store(g, fmt.Sprint(p))
+				}
+			}()
+			name := fmt.Sprintf("m%d", g)
+			tags := map[string]string{"g": fmt.Sprint(g)}
+			var cc tally.CachedCount
+			var cg tally.CachedGauge
+			var ct tally.CachedTimer
+			if cached {
+				cc, cg, ct = mc.AllocateCounter(name, tags), mc.AllocateGauge(name, tags), mc.AllocateTimer(name, tags)
+				add(mon.Event{Kind: mon.EvAllocCounter, Name: name, Tags: tags})
+				add(mon.Event{Kind: mon.EvAllocGauge, Name: name, Tags: tags})
+				add(mon.Event{Kind: mon.EvAllocTimer, Name: name, Tags: tags})
+			}
+			start.Wait()
+			for i := 0; i < per; i++ {
+				v := int64(g)<<32 | int64(i)
+				switch gr.Intn(4) {
+				case 0:
+					if cached {
+						cc.ReportCount(v)
+					} else {
+						mp.ReportCounter(name, tags, v)
+					}
+					add(mon.Event{Kind: mon.EvCounter, Name: name, Tags: tags, I: v})
+				case 1:
+					if cached {
+						cg.ReportGauge(float64(v))
+					} else {
+						mp.ReportGauge(name, tags, float64(v))
+					}
+					add(mon.Event{Kind: mon.EvGauge, Name: name, Tags: tags, F: f64bits(float64(v))})
+				case 2:
+					if cached {
+						ct.ReportTimer(time.Duration(v))
+					} else {
+						mp.ReportTimer(name, tags, time.Duration(v))
+					}
+					add(mon.Event{Kind: mon.EvTimer, Name: name, Tags: tags, I: v})
+				default:
+					if cached {
+						mc.Flush()
+					} else {
+						mp.Flush()
+					}
+					add(mon.Event{Kind: mon.EvFlush})
+				}
+			}
+		}()
+	}
+	start.Done()
+	wg.Wait()
+	panics.Range(func(k, v interface{}) bool {
+		c.Violation("panic-multi-concurrent", map[string]interface{}{"why": v, "case": desc})
+		return true
+	})
+	sort.Strings(want)
+	for i, rec := range recs {
+		log, _, _ := rec.Snapshot()
+		got := make([]string, 0, len(log))
+		for _, e := range log {
+			got = append(got, evSig(e))
+		}
+		sort.Strings(got)
+		c.Event("concurrent-child-calls-checked", int64(len(got)))
+		if len(got) != len(want) {
+			nf, wf := 0, 0
+			for _, x := range got {
+				if x == evSig(mon.Event{Kind: mon.EvFlush}) {
+					nf++
+				}
+			}
+			for _, x := range want {
+				if x == evSig(mon.Event{Kind: mon.EvFlush}) {
+					wf++
+				}
+			}
+			c.Violation("multi-not-exactly-once", map[string]interface{}{"why": fmt.Sprintf("concurrent use: child %d received %d calls (%d flushes), %d were made on the multi reporter (%d flushes)", i, len(got), nf, len(want), wf), "case": desc})
+			continue
+		}
+		for k := range want {
+			if got[k] != want[k] {
+				c.Violation("multi-call-differs", map[string]interface{}{"why": fmt.Sprintf("concurrent use: child %d received %s, expected %s (sorted position %d)", i, got[k], want[k], k), "case": desc})
+				break
+			}
+		}
+	}
+	c.Distinct(mon.Hash64("conc", fmt.Sprint(desc), fmt.Sprint(r.U64())))
+}
